@@ -12,7 +12,8 @@ import subprocess
 from core import run_retry, HarnessError
 
 FILE_SYSCALLS = ["mkdir", "openat", "open", "write", "close", "read", "newfstatat", "fstat", "stat", "lstat",
-                 "getdents64", "unlink", "unlinkat", "rmdir", "lseek", "rename", "fsync", "fdatasync", "pwrite64"]
+                 "getdents64", "unlink", "unlinkat", "rmdir", "lseek", "rename", "renameat", "renameat2", "fsync", "fdatasync",
+                 "pwrite64", "writev", "pwritev", "sendfile", "copy_file_range", "link", "linkat", "ftruncate"]
 
 LINE = re.compile(r"^(\d+)\s+(\w+)\((.*)$")
 
